@@ -28,6 +28,7 @@ type ReplayPlan struct {
 	Predicted []string // model-predicted observable results ("nil"/"non-nil"/value)
 	Notes     []string
 	OK        bool
+	Decls     string // declarations placed before the test function (scripted implementations of interface parameters)
 }
 
 type concretizer struct {
@@ -41,6 +42,8 @@ type concretizer struct {
 	bounded map[int]bool
 	restart bool
 	strCands []*smt.Term
+	mocks    []*types.Named // interface types for which a scripted implementation is generated
+	qn       int
 }
 
 func (c *concretizer) giveUp(format string, a ...interface{}) {
@@ -289,7 +292,31 @@ func (c *concretizer) conc(st *State, v Value, T types.Type, depth int) string {
 				return "nil"
 			}
 			dt, ok := e.typeByID[int(tag)]
+			if ok {
+				// the model's tag must name a type that can be held at all
+				if it, isI := T.Underlying().(*types.Interface); isI && !types.Implements(dt, it) {
+					ok = false
+				}
+			}
 			if !ok || al.Opaque == nil {
+				// an implementation the code knows nothing about
+				if types.Identical(T, errorType) {
+					return `fmt.Errorf("govc: scripted error")`
+				}
+				if nt, isNamed := T.(*types.Named); isNamed {
+					if it, isI := nt.Underlying().(*types.Interface); isI && it.NumMethods() > 0 {
+						found := false
+						for _, m := range c.mocks {
+							if m == nt {
+								found = true
+							}
+						}
+						if !found {
+							c.mocks = append(c.mocks, nt)
+						}
+						return "&" + mockName(nt) + "{}"
+					}
+				}
 				c.giveUp("interface value of a dynamic type the model does not name")
 				return "nil"
 			}
@@ -499,6 +526,14 @@ func (e *Exec) BuildReplay(o *Obligation, script string) *ReplayPlan {
 	for i := 0; i < res.Len(); i++ {
 		plan.ResTypes = append(plan.ResTypes, c.typeStr(res.At(i).Type()))
 		plan.ResKinds = append(plan.ResKinds, kindOf(res.At(i).Type()))
+	}
+	if len(c.mocks) > 0 && c.fail == "" {
+		plan.Decls = c.mockDecls(o)
+		if c.fail != "" {
+			plan.Notes = append(plan.Notes, c.fail)
+			return plan
+		}
+		plan.Notes = append(plan.Notes, "interface-typed inputs are scripted implementations that replay, call by call, the results and effects the counterexample assigns to them")
 	}
 	// predicted observable results (post obligations carry the result values)
 	for i, rv := range o.Results {
@@ -714,4 +749,159 @@ func (c *concretizer) repairHashes(emitted []*smt.Term, script string, plan *Rep
 	if done > 0 {
 		plan.Notes = append(plan.Notes, fmt.Sprintf("%d hash application(s) of the counterexample were replaced by the real digest of their model input", done))
 	}
+}
+
+func mockName(nt *types.Named) string { return "govcMock_" + nt.Obj().Name() }
+
+// mockDecls renders, for every interface type registered in c.mocks, a type
+// whose methods return -- call by call -- the results the counterexample gives
+// to the recorded calls of that method and write the post-state it gives to
+// everything reachable from pointer arguments.
+func (c *concretizer) mockDecls(o *Obligation) string {
+	e := c.e
+	var sb strings.Builder
+	for mi := 0; mi < len(c.mocks); mi++ {
+		nt := c.mocks[mi]
+		it := nt.Underlying().(*types.Interface).Complete()
+		name := mockName(nt)
+		fmt.Fprintf(&sb, "type %s struct{ n map[string]int }\n\n", name)
+		fmt.Fprintf(&sb, "func (m *%s) next(k string) int {\n\tif m.n == nil {\n\t\tm.n = map[string]int{}\n\t}\n\tv := m.n[k]\n\tm.n[k]++\n\treturn v\n}\n\n", name)
+		for i := 0; i < it.NumMethods(); i++ {
+			m := it.Method(i)
+			sig := m.Type().(*types.Signature)
+			var params, zeros []string
+			for k := 0; k < sig.Params().Len(); k++ {
+				pt := c.typeStr(sig.Params().At(k).Type())
+				if sig.Variadic() && k == sig.Params().Len()-1 {
+					pt = "..." + strings.TrimPrefix(pt, "[]")
+				}
+				params = append(params, fmt.Sprintf("p%d %s", k, pt))
+			}
+			var results []string
+			for k := 0; k < sig.Results().Len(); k++ {
+				rt := sig.Results().At(k).Type()
+				results = append(results, c.typeStr(rt))
+				zeros = append(zeros, fmt.Sprintf("*new(%s)", c.typeStr(rt)))
+			}
+			fmt.Fprintf(&sb, "func (m *%s) %s(%s) (%s) {\n", name, m.Name(), strings.Join(params, ", "), strings.Join(results, ", "))
+			key := ifaceMethodKey(nt, m)
+			spec := e.DB.Funcs[key]
+			if spec != nil && spec.Records != "" {
+				fmt.Fprintf(&sb, "\tswitch m.next(%q) {\n", m.Name())
+				k := 0
+				for _, rec := range o.Recs {
+					if rec.Name != spec.Records || rec.Post == nil {
+						continue
+					}
+					if !c.askBool(rec.Guard, false) {
+						continue
+					}
+					fmt.Fprintf(&sb, "\tcase %d:\n", k)
+					k++
+					// effects on what the arguments point to
+					for a := 0; a < sig.Params().Len() && a+1 < len(rec.Args); a++ {
+						for _, st := range c.updates(rec.Post, fmt.Sprintf("p%d", a), rec.Args[a+1], sig.Params().At(a).Type(), 0) {
+							fmt.Fprintf(&sb, "\t\t%s\n", st)
+						}
+					}
+					var rs []string
+					for r := 0; r < sig.Results().Len() && r < len(rec.Results); r++ {
+						rs = append(rs, c.conc(rec.Post, rec.Results[r], sig.Results().At(r).Type(), 0))
+					}
+					if len(rs) == sig.Results().Len() && len(rs) > 0 {
+						fmt.Fprintf(&sb, "\t\treturn %s\n", strings.Join(rs, ", "))
+					} else if sig.Results().Len() == 0 {
+						sb.WriteString("\t\treturn\n")
+					}
+				}
+				sb.WriteString("\t}\n")
+			}
+			if len(zeros) > 0 {
+				fmt.Fprintf(&sb, "\treturn %s\n", strings.Join(zeros, ", "))
+			}
+			sb.WriteString("}\n\n")
+		}
+	}
+	return sb.String()
+}
+
+// updates renders statements that bring everything reachable from expr (a
+// pointer, or an interface value holding a pointer) to the contents it has in
+// state post.
+func (c *concretizer) updates(post *State, expr string, v Value, T types.Type, depth int) []string {
+	e := c.e
+	if depth > 4 || c.fail != "" {
+		return nil
+	}
+	var out []string
+	switch x := v.(type) {
+	case *IfaceV:
+		for _, al := range x.Alts {
+			if al.Typ == nil || !c.askBool(al.Cond, len(x.Alts) == 1) {
+				continue
+			}
+			if _, isPtr := al.Typ.Underlying().(*types.Pointer); !isPtr {
+				return nil
+			}
+			c.qn++
+			q := fmt.Sprintf("q%d", c.qn)
+			inner := c.updates(post, q, al.Val, al.Typ, depth+1)
+			if len(inner) == 0 {
+				return nil
+			}
+			out = append(out, fmt.Sprintf("if %s, ok := %s.(%s); ok && %s != nil {", q, expr, c.typeStr(al.Typ), q))
+			for _, s := range inner {
+				out = append(out, "\t"+s)
+			}
+			out = append(out, "}")
+			return out
+		}
+	case *PtrV:
+		pt, ok := T.Underlying().(*types.Pointer)
+		if !ok {
+			return nil
+		}
+		for _, al := range x.Alts {
+			if al.Loc == nil || !c.askBool(al.Cond, len(x.Alts) == 1) {
+				continue
+			}
+			pointee := e.loadLoc(post, al.Loc)
+			if sv, isS := pointee.(*StructV); isS {
+				stT, isST := pt.Elem().Underlying().(*types.Struct)
+				if !isST {
+					return nil
+				}
+				for i := 0; i < stT.NumFields(); i++ {
+					f := stT.Field(i)
+					if !exportedOrLocal(f, c.pkg) {
+						continue
+					}
+					fe := fmt.Sprintf("%s.%s", expr, f.Name())
+					switch f.Type().Underlying().(type) {
+					case *types.Pointer, *types.Interface:
+						inner := c.updates(post, fe, sv.Field(i), f.Type(), depth+1)
+						if _, isP := f.Type().Underlying().(*types.Pointer); isP && len(inner) > 0 {
+							out = append(out, fmt.Sprintf("if %s != nil {", fe))
+							for _, s := range inner {
+								out = append(out, "\t"+s)
+							}
+							out = append(out, "}")
+						} else {
+							out = append(out, inner...)
+						}
+					case *types.Map, *types.Signature, *types.Chan:
+					default:
+						if _, abs := abstractSort(f.Type()); abs {
+							continue
+						}
+						out = append(out, fmt.Sprintf("%s = %s", fe, c.conc(post, sv.Field(i), f.Type(), depth+1)))
+					}
+				}
+				return out
+			}
+			out = append(out, fmt.Sprintf("*%s = %s", expr, c.conc(post, pointee, pt.Elem(), depth+1)))
+			return out
+		}
+	}
+	return out
 }
